@@ -167,6 +167,21 @@ func runCase(r *mon.Run, c Case) {
 	if !bytes.Equal(priv.Public().(ed25519.PublicKey), pub) || !bytes.Equal(priv.Seed(), seed) {
 		r.Violate("PrivateKey/accessors", "Public()/Seed() mismatch", c)
 	}
+	// what the accessors return belongs to the caller: overwriting it must not reach the key
+	for name, get := range map[string]func() []byte{
+		"Public()": func() []byte { return priv.Public().(ed25519.PublicKey) },
+		"Seed()":   func() []byte { return priv.Seed() },
+	} {
+		b := get()
+		for i := range b {
+			b[i] ^= 0x5a
+		}
+		r.Eval(nil)
+		if !bytes.Equal(priv, spriv) {
+			r.Violate("PrivateKey/"+name+"/returned-slice-aliases-the-key", "overwriting the returned bytes changed the private key", c)
+			priv = ed25519.PrivateKey(append([]byte{}, spriv...))
+		}
+	}
 
 	opts := &ed25519.Options{SelfVerify: c.SelfV}
 	sopts := &stded.Options{}
